@@ -270,6 +270,17 @@ func genGLRaw(t *rapid.T) glSpec {
 		g.Regions[rapid.IntRange(0, len(g.Regions)-1).Draw(t, "detachedregionid")].Detached = true
 	}
 	for ci := range g.Cues {
+		// an empty line inside a cue (no run, or one run without text)
+		if n := len(g.Cues[ci].Lines); n >= 1 && rapid.IntRange(0, 5).Draw(t, "emptyline") == 0 {
+			at := rapid.IntRange(0, n).Draw(t, "emptylineat")
+			empty := glLine{}
+			if rapid.Bool().Draw(t, "emptyrun") {
+				empty.Runs = []glRun{{Text: ""}}
+			}
+			ls := append([]glLine(nil), g.Cues[ci].Lines[:at]...)
+			ls = append(ls, empty)
+			g.Cues[ci].Lines = append(ls, g.Cues[ci].Lines[at:]...)
+		}
 		for li := range g.Cues[ci].Lines {
 			for ri := range g.Cues[ci].Lines[li].Runs {
 				if rapid.IntRange(0, 9).Draw(t, "rawbreak") == 0 {
